@@ -78,6 +78,10 @@ def lex_a(version):
 def lex_x():
     L = _lex('x', '1', 'en', 'Extension X of A', extends={'id': 'a', 'version': '1'},
              meta={'description': 'ext'})
+    # a frame of the extension with the text of one of A's frames, linked (through the
+    # senses list) to a sense of A and to a sense of its own
+    L['frames'] = [{'id': 'x-sb1', 'subcategorizationFrame': 'Somebody ----s',
+                    'senses': ['a-w1-1', 'x-w1-1']}]
     L['entries'] = [
         {'id': 'a-w1', 'external': True,
          'lemma': {'external': True,
